@@ -66,7 +66,7 @@ def rand_boxes(rng, n, grid):
 
 def correspond(ctx):
     rng = ctx.rng
-    res = kernels.cross_check('C19', ['BBox_includes', 'BBox_overlaps', 'BBox_area'], ctx.n(150, 2000), rng)
+    res = kernels.cross_check('C19', ['BBox_includes', 'BBox_overlaps', 'BBox_area', 'linesweep_dequefilter', 'linesweep_bbox_intersections'], ctx.n(150, 2000), rng)     # the last two: the sweep as regenerated from the source (Proofs/Bridge3.v)
     cases, meta = [], []
     for _ in range(ctx.n(250, 4000)):
         grid = rng.random() < 0.6
